@@ -851,22 +851,25 @@ class Time(object):
                              microsecond=self.nanosecond // Time.MICRO)
 
     def _from_timestamp(self, t):
-        if t >= Time.DAY:
-            raise ValueError("value must be less than number of nanoseconds in a day (%d)" % Time.DAY)
+        if t < 0 or t >= Time.DAY:
+            raise ValueError("value must be non-negative and less than number of nanoseconds in a day (%d)" % Time.DAY)
         self.nanosecond_time = t
 
     def _from_timestring(self, s):
         try:
             parts = s.split('.')
             base_time = time.strptime(parts[0], "%H:%M:%S")
-            self.nanosecond_time = (base_time.tm_hour * Time.HOUR +
-                                    base_time.tm_min * Time.MINUTE +
-                                    base_time.tm_sec * Time.SECOND)
+            nanosecond_time = (base_time.tm_hour * Time.HOUR +
+                               base_time.tm_min * Time.MINUTE +
+                               base_time.tm_sec * Time.SECOND)
 
             if len(parts) > 1:
                 # right pad to 9 digits
                 nano_time_str = parts[1] + "0" * (9 - len(parts[1]))
-                self.nanosecond_time += int(nano_time_str)
+                nanosecond_time += int(nano_time_str)
+
+            # strptime accepts leap seconds (up to 61): the result must still be a time within one day
+            self._from_timestamp(nanosecond_time)
 
         except ValueError:
             raise ValueError("can't interpret %r as a time" % (s,))
